@@ -94,7 +94,7 @@ class ExecGen:
         if n in ("Int", "Float"):
             return G.v_int("1")
         if n in ("String", "ID"):
-            return G.v_str("s")
+            return G.v_str(self.r.choice(["s", "s", "\u65e5\u672c\u8a9e \U0001F389", "caf\u00e9"]))
         if n == "Boolean":
             return {"k": "bool", "v": True}
         if d["k"] == "scalar":
